@@ -27,6 +27,13 @@ func isDone(n *netceptor.Netceptor) bool {
 	}
 }
 
+// sameIDMesh: chain  x — twin(early) — m1 — m2 [— m3]  of real nodes; a second node "twin" with a
+// later start epoch is attached at the far end (two or three hops from the early one; a direct
+// neighbour of the early one refuses it as already connected).  One of the two has been running
+// for a long time (sequence counter far above the other's), in both orders.  Property text: the
+// later one shuts itself down, the earlier one keeps working — within the bound every node routes
+// to everything again as in the chain without the late node, and the early node's updates are
+// accepted everywhere (stored epoch/sequence = its current ones).
 func sameIDMesh(c *Ctx, im *Impl) {
 	QuietLogs()
 	trials := 4
@@ -34,65 +41,160 @@ func sameIDMesh(c *Ctx, im *Impl) {
 		trials = 16
 	}
 	k := FastConsts()
+	var wg sync.WaitGroup
+	var mu sync.Mutex
+	type verdict struct {
+		what, sig string
+		rec       map[string]interface{}
+	}
+	var out []verdict
+	report := func(what, sig string, rec map[string]interface{}) {
+		mu.Lock()
+		out = append(out, verdict{what, sig, rec})
+		mu.Unlock()
+	}
+	base := uint64(time.Now().Unix()) << 24
+	type plan struct {
+		far, lateHigh, lateFirst bool
+		gap                      uint64
+		r1, r2                   uint64
+	}
+	plans := make([]plan, trials)
+	for t := range plans {
+		plans[t] = plan{far: t%2 == 1, lateHigh: t%4 < 2 || t%8 == 7, lateFirst: t%8 >= 4, gap: uint64(1 + c.Rng.Intn(3)),
+			r1: uint64(c.Rng.Intn(1 << 24)), r2: uint64(c.Rng.Intn(1 << 24))}
+	}
 	for t := 0; t < trials; t++ {
-		hubs := 2 + t%2 // dup1 - hub0 - ... - hubN - dup2
-		laterJoinsFirst := t%4 >= 2
-		gapSeconds := uint64(1 + c.Rng.Intn(3))
-		var nodes []*netceptor.Netceptor
-		var cancels []context.CancelFunc
-		mk := func(id string) *netceptor.Netceptor {
-			ctx, cancel := context.WithCancel(context.Background())
-			n := netceptor.NewWithConsts(ctx, id, k.MTU, k.RouteUpdate, k.ServiceAd, k.SeenExpire, k.MaxHops, k.MaxIdle)
-			n.Logger.SetOutput(io.Discard)
-			nodes = append(nodes, n)
-			cancels = append(cancels, cancel)
-			return n
-		}
-		link := func(a, b *netceptor.Netceptor) {
-			ea, eb := NewPipePair(4096)
-			_ = a.AddBackend(&OneShotBackend{Sess: ea})
-			_ = b.AddBackend(&OneShotBackend{Sess: eb})
-		}
-		hub := make([]*netceptor.Netceptor, hubs)
-		for i := range hub {
-			hub[i] = mk(fmt.Sprintf("hub%d", i))
-			if i > 0 {
-				link(hub[i-1], hub[i])
+		wg.Add(1)
+		go func(t int, pl plan) {
+			defer wg.Done()
+			var nodes []*netceptor.Netceptor
+			var cancels []context.CancelFunc
+			mk := func(id string) *netceptor.Netceptor {
+				ctx, cancel := context.WithCancel(context.Background())
+				n := netceptor.NewWithConsts(ctx, id, k.MTU, k.RouteUpdate, k.ServiceAd, k.SeenExpire, k.MaxHops, k.MaxIdle)
+				n.Logger.SetOutput(io.Discard)
+				nodes = append(nodes, n)
+				cancels = append(cancels, cancel)
+				return n
 			}
-		}
-		base := uint64(time.Now().Unix()) << 24
-		earlier, later := mk("twin"), mk("twin")
-		earlier.VerifSetEpoch(base + uint64(c.Rng.Intn(1<<24)))
-		later.VerifSetEpoch(base + gapSeconds<<24 + uint64(c.Rng.Intn(1<<24)))
-		if laterJoinsFirst {
-			link(later, hub[hubs-1])
-			time.Sleep(300 * time.Millisecond)
-			link(earlier, hub[0])
-		} else {
-			link(earlier, hub[0])
-			time.Sleep(300 * time.Millisecond)
-			link(later, hub[hubs-1])
-		}
-		rec := map[string]interface{}{"hubs": hubs, "later_joins_first": laterJoinsFirst, "epoch_gap_seconds": gapSeconds}
+			defer func() {
+				for i, n := range nodes {
+					n.Shutdown()
+					cancels[i]()
+				}
+			}()
+			link := func(a, b *netceptor.Netceptor) {
+				ea, eb := NewPipePair(4096)
+				_ = a.AddBackend(&OneShotBackend{Sess: ea})
+				_ = b.AddBackend(&OneShotBackend{Sess: eb})
+			}
+			names := []string{"x", "twin", "m1", "m2"}
+			if pl.far {
+				names = append(names, "m3")
+			}
+			earlier, later := mk("twin"), mk("twin")
+			earlier.VerifSetEpoch(base + pl.r1)
+			later.VerifSetEpoch(base + pl.gap<<24 + pl.r2)
+			if pl.lateHigh {
+				later.VerifSetSequence(5000) // has been running (detached) for a long time
+			} else {
+				earlier.VerifSetSequence(5000)
+			}
+			chain := make([]*netceptor.Netceptor, len(names))
+			for i, nm := range names {
+				if nm == "twin" {
+					chain[i] = earlier
+				} else {
+					chain[i] = mk(nm)
+				}
+			}
+			rec := map[string]interface{}{"chain": names, "late_attached_to": names[len(names)-1], "late_has_higher_sequence": pl.lateHigh,
+				"late_joins_first": pl.lateFirst, "epoch_gap_seconds": pl.gap}
+			// the chain without the early node's own links first, so that either twin can join first
+			for i := 2; i+1 < len(chain); i++ {
+				link(chain[i], chain[i+1])
+			}
+			joinEarly := func() { link(chain[0], earlier); link(earlier, chain[2]) }
+			joinLate := func() { link(later, chain[len(chain)-1]) }
+			if pl.lateFirst {
+				joinLate()
+				time.Sleep(600 * time.Millisecond)
+				joinEarly()
+			} else {
+				joinEarly()
+				time.Sleep(600 * time.Millisecond)
+				joinLate()
+			}
+			if !WaitFor(15*time.Second, func() bool { return isDone(later) }) {
+				report("two running nodes claim the same ID: the later one did not shut down within 15 s", "same-id:later-not-shut-down", rec)
+				return
+			}
+			// the earlier one keeps working: routes and accepted updates, within the bound
+			var problem string
+			converged := WaitFor(12*time.Second, func() bool {
+				problem = ""
+				if isDone(earlier) {
+					problem = "the EARLIER node has shut down"
+					return false
+				}
+				cur := earlier.VerifSequence()
+				for i, n := range chain {
+					if isDone(n) {
+						problem = names[i] + " has shut down"
+						return false
+					}
+					rt := n.Status().RoutingTable
+					for j := range chain {
+						if j == i {
+							continue
+						}
+						var want string
+						if j > i {
+							want = names[i+1]
+						} else {
+							want = names[i-1]
+						}
+						if rt[names[j]] != want {
+							problem = fmt.Sprintf("%s routes to %s via %q, the chain without the late node says %q", names[i], names[j], rt[names[j]], want)
+							return false
+						}
+					}
+					if n == earlier {
+						continue
+					}
+					ki, ok := n.VerifKnownNodeInfo()["twin"]
+					switch {
+					case !ok:
+						problem = names[i] + " knows nothing of twin"
+						return false
+					case ki[0] != earlier.VerifEpoch():
+						problem = fmt.Sprintf("%s remembers epoch %d for twin, the running one has %d", names[i], ki[0], earlier.VerifEpoch())
+						return false
+					case ki[1] > cur || cur-ki[1] > 3:
+						problem = fmt.Sprintf("%s remembers sequence %d for twin whose current sequence is %d: its updates are not being accepted", names[i], ki[1], cur)
+						return false
+					}
+				}
+				return true
+			})
+			if !converged {
+				rec["problem"] = problem
+				sig := "same-id:earlier-not-working"
+				if isDone(earlier) {
+					sig = "same-id:earlier-shut-down"
+				}
+				report("two running nodes claimed the same ID and the later one has shut down, but 12 s later the earlier one is not working as before: "+problem, sig, rec)
+			}
+		}(t, plans[t])
+	}
+	wg.Wait()
+	for t := 0; t < trials; t++ {
 		im.Hist("same-id-mesh")
-		im.Count(fmt.Sprintf("same-id %v", rec), true)
-		ok := WaitFor(10*time.Second, func() bool { return isDone(later) })
-		time.Sleep(500 * time.Millisecond)
-		if !ok {
-			im.Violate("two running nodes claim the same ID: the later one did not shut down within 10 s", "same-id:later-not-shut-down", rec)
-		}
-		if isDone(earlier) {
-			im.Violate("two running nodes claim the same ID: the EARLIER one shut down", "same-id:earlier-shut-down", rec)
-		}
-		for i, h := range hub {
-			if isDone(h) {
-				im.Violate(fmt.Sprintf("hub%d shut down in the same-ID scenario", i), "same-id:bystander-shut-down", rec)
-			}
-		}
-		for i, n := range nodes {
-			n.Shutdown()
-			cancels[i]()
-		}
+		im.Count(fmt.Sprintf("same-id %+v", plans[t]), true)
+	}
+	for _, v := range out {
+		im.Violate(v.what, v.sig, v.rec)
 	}
 }
 
